@@ -44,6 +44,16 @@ func (c *Ctx) pushFrame(s *State, fn *ssa.Function, args []Value, binds []Value)
 			}
 		}
 	}
+	if la := c.eng.localAlias[qualFnName(fn)]; len(la) > 0 {
+		if fr.alias == nil {
+			fr.alias = map[string]string{}
+		}
+		for o, n := range la {
+			if _, has := fr.alias[o]; !has {
+				fr.alias[o] = n
+			}
+		}
+	}
 	fr.entry = s.snapshot()
 	fr.entryClock = s.clock
 	s.frames = append(s.frames, fr)
